@@ -370,6 +370,20 @@ func (clients *clientsContainer) shouldCountClient(ids []string) (y bool) {
 		}
 	}
 
+	// The identifiers carry no IPv6 zone, so also look for a client by its
+	// address without the zone, like the query log does.
+	for _, id := range ids {
+		ip, err := netip.ParseAddr(id)
+		if err != nil {
+			continue
+		}
+
+		client, ok := clients.storage.FindLoose(ip, id)
+		if ok {
+			return !client.IgnoreStatistics
+		}
+	}
+
 	return true
 }
 
